@@ -165,8 +165,17 @@ def F15():
     return a.tostring() != b.tostring()
 
 
+def F16():
+    # a gradient whose only user is a shape that merely sits in <defs>: left unreferenced, a second pass removes it
+    from picosvg.svg import SVG
+    src = ('<svg xmlns="http://www.w3.org/2000/svg" viewBox="0 0 10 10"><defs><linearGradient id="g"><stop offset="0" stop-color="red"/></linearGradient>'
+           '<path id="p" d="M0,0 L5,0 L5,5 Z" fill="url(#g)"/></defs><path d="M1,1 L4,1 L4,4 Z"/></svg>')
+    out = SVG.fromstring(src).topicosvg().tostring()
+    return "linearGradient" in out
+
+
 if __name__ == "__main__":
-    names = sys.argv[1:] or [f"F{i}" for i in range(1, 16)] + ["F9b"]
+    names = sys.argv[1:] or [f"F{i}" for i in range(1, 17)] + ["F9b"]
     for n in names:
         try:
             r = globals()[n]()
